@@ -73,22 +73,9 @@ def jPOut : POut → Json
   | .indexError => jExc "IndexError" none
   | .valueError => jExc "ValueError" none
 
-def handleTree (j : Json) : R Json := do
-  let call ← strF j "call"
-  let pid ← natF j "pid"
-  let mk ← field j "mk" >>= parseTable
-  let mid ← optF parseTable j "mid"
-  let lowest ← optF asNat j "lowest"
-  let t0 ← field j "t0" >>= parseTable
-  let t1o ← optF parseTable j "t1"
-  let t1 := t1o.getD t0
-  let me0 ← (match mkProcess (lookOf mk) pid with
-    | .ok c => pure c
-    | _ => .error s!"pid {pid} is not listed in mk")
-  let (me, running) : Caller × Option Bool := match mid with
-    | none => (me0, none)
-    | some tm => let r := isRunning (lookOf tm) me0; (r.1, some r.2)
-  let ps : Ps := ⟨lowest⟩
+/-- one tree call on the object `me` (module state `ps`): identity check + ppid_map() on `t0`, look-ups on `t1`.
+    → the fields `model`, `spec` (+ `spec_stop`, `spec_found` for parent()/parents()), `flags`, `closed` -/
+def treeAnswer (call : String) (pid : Nat) (ps : Ps) (me : Caller) (t0 t1 : Table) : R (List (String × Json)) := do
   let recycled : Bool := match lookOf t0 pid with
     | some s => s != me.ctime
     | none => false
@@ -100,7 +87,6 @@ def handleTree (j : Json) : R Json := do
   let flags := jObj [("pre_gone", Json.bool me.gone), ("pre_reused", Json.bool me.reused),
     ("recycled", Json.bool recycled), ("listed", Json.bool listed), ("dead", Json.bool dead),
     ("min_pid", jOpt jNat (minPid? t0))]
-  let jrun := jOpt Json.bool running
   let nspJ := jExc "NoSuchProcess" (some pid)
   if call == "children" || call == "children_rec" then
     let recursive := call == "children_rec"
@@ -110,7 +96,12 @@ def handleTree (j : Json) : R Json := do
     let sp := if dead then nspJ
       else if recursive then jObj (("kind", "ok") :: jProcs look (Spec.descList links look me.ctime pid))
       else jObj (("kind", "ok") :: jProcs look (Spec.childList links look me.ctime pid))
-    return jObj [("model", jOut (jProcs look) m), ("spec", sp), ("running", jrun), ("flags", flags),
+    -- the ORDER of the returned list is not specified (a set); as a characterisation of the code it is the
+    -- model's: compared unsorted by the harness (`order`)
+    let order : Json := match m with
+      | .ok l => jList jNat l
+      | _ => Json.null
+    return [("model", jOut (jProcs look) m), ("order", order), ("spec", sp), ("flags", flags),
       ("closed", Json.bool (isClosed || !recursive))]
   else if call == "parent" then
     let m := (parent cfg ps t0 me).2.2
@@ -121,7 +112,7 @@ def handleTree (j : Json) : R Json := do
     let sp := if dead then nspJ else jObj (("kind", "ok") :: jParent (Spec.parentLit t0 pid me.ctime))
     let ss := if dead then nspJ else jObj (("kind", "ok") :: jParent (Spec.parentOf t0 pid me.ctime))
     let sf := if Spec.isRoot t0 pid then jObj (("kind", "ok") :: jParent none) else ss
-    return jObj [("model", jOut jParent m), ("spec", sp), ("spec_stop", ss), ("spec_found", sf), ("running", jrun),
+    return [("model", jOut jParent m), ("spec", sp), ("spec_stop", ss), ("spec_found", sf),
       ("flags", flags), ("closed", Json.bool true)]
   else if call == "parents" then
     let m := (parents cfg ps t0 me).2
@@ -130,9 +121,60 @@ def handleTree (j : Json) : R Json := do
     let ss := if dead then nspJ
       else jObj (("kind", "ok") :: jChain (Spec.chainList t0 (t0.length + 1) [pid] pid me.ctime))
     let sf := if Spec.isRoot t0 pid then jObj (("kind", "ok") :: jChain []) else ss
-    return jObj [("model", jOut jChain m), ("spec", sp), ("spec_stop", ss), ("spec_found", sf), ("running", jrun),
+    return [("model", jOut jChain m), ("spec", sp), ("spec_stop", ss), ("spec_found", sf),
       ("flags", flags), ("closed", Json.bool true)]
   else .error s!"unknown call {call}"
+
+def callOf (call : String) : R Call :=
+  if call == "is_running" then pure .isRunning
+  else if call == "children" then pure (.children false)
+  else if call == "children_rec" then pure (.children true)
+  else if call == "parent" then pure .parent
+  else if call == "parents" then pure .parents
+  else .error s!"unknown call {call}"
+
+def handleTree (j : Json) : R Json := do
+  let call ← strF j "call"
+  let pid ← natF j "pid"
+  let mk ← field j "mk" >>= parseTable
+  let mid ← optF parseTable j "mid"
+  let lowest ← optF asNat j "lowest"
+  let t0 ← field j "t0" >>= parseTable
+  let t1o ← optF parseTable j "t1"
+  let t1 := t1o.getD t0
+  -- EARLIER CALLS ON THE SAME OBJECT (Model/C05Seq.lean): "pre" = [[call, rows], …], each on its own constant table,
+  -- `lowest0` = what `_LOWEST_PID` holds before the first of them. The object (and `_LOWEST_PID`) are threaded
+  -- through `afterCall`; every earlier call is answered like a call of its own.
+  let pre ← optF (asList fun e => do
+      match e.getArr? with
+      | .ok #[c, t] => do
+        let c ← asStr c
+        let t ← parseTable t
+        pure (c, t)
+      | _ => .error "pre entry must be [call, rows]") j "pre"
+  let lowest0 ← optF asNat j "lowest0"
+  let me0 ← (match mkProcess (lookOf mk) pid with
+    | .ok c => pure c
+    | _ => .error s!"pid {pid} is not listed in mk")
+  let (me1, running) : Caller × Option Bool := match mid with
+    | none => (me0, none)
+    | some tm => let r := isRunning (lookOf tm) me0; (r.1, some r.2)
+  let mut st : Ps × Caller := (⟨lowest0⟩, me1)
+  let mut preOut : List Json := []
+  for (c, t) in pre.getD [] do
+    let cl ← callOf c
+    if c == "is_running" then
+      preOut := preOut ++ [jObj [("model", Json.bool (isRunning (lookOf t) st.2).2), ("spec", Json.null)]]
+    else
+      let a ← treeAnswer c pid st.1 st.2 t t
+      preOut := preOut ++ [jObj a]
+    st := afterCall cfg t st cl
+  let me := st.2
+  let ps : Ps := ⟨lowest⟩
+  let jrun := jOpt Json.bool running
+  let a ← treeAnswer call pid ps me t0 t1
+  return jObj (a ++ [("running", jrun), ("pre", Json.arr preOut.toArray),
+    ("lowest_after_pre", jOpt jNat st.1.lowest)])
 
 def handleStat (j : Json) : R Json := do
   let pid ← natF j "pid"
@@ -288,7 +330,10 @@ def handleDyn (j : Json) : R Json := do
       else if !alive then nspJ
       else if recursive then jObj (("kind", "ok") :: jProcs look (Spec.descList links look me.ctime pid))
       else jObj (("kind", "ok") :: jProcs look (Spec.childList links look me.ctime pid))
-    return jObj [("model", jXOut (jProcs look) m), ("spec", sp), ("closed", Json.bool (isClosed || !recursive)),
+    let order : Json := match m with
+      | .ok l => jList jNat l
+      | _ => Json.null
+    return jObj [("model", jXOut (jProcs look) m), ("order", order), ("spec", sp), ("closed", Json.bool (isClosed || !recursive)),
       ("alt_denied", jList jNat (if stays then [] else sortNat altDenied)), ("cached", Json.bool cached)]
   else if call == "parent" || call == "parents" then
     match lowestPidX ps (W 0).listing with
